@@ -228,7 +228,30 @@ def translate_util(repo, out):
     exps = [n for n in ast.walk(f) if isinstance(n, ast.Call) and ast.unparse(n.func).endswith(".expect")]
     need(len(exps) == 1 and len(exps[0].args) >= 1, "wait_for_shell does not call expect exactly once")
     panswer = const_str(exps[0].args[0], "the probe answer")
-    out.append("(* from tbot/machine/linux/util.py: wait_for_shell, shell_sanity_check *)")
+    # the two timeouts of the probe loop: `timeout = <float>` once before the loop and once in the handler of the
+    # TimeoutError; expect() must be called with that variable
+    kws = {k.arg: k.value for k in exps[0].keywords}
+    need("timeout" in kws and isinstance(kws["timeout"], ast.Name) and kws["timeout"].id == "timeout",
+         "wait_for_shell does not pass its `timeout` variable to expect()")
+    loops = [n for n in f.body if isinstance(n, ast.While)]
+    need(len(loops) == 1, "wait_for_shell does not consist of one while loop")
+    def tmo_assigns(nodes):
+        return [n for b in nodes for n in ast.walk(b) if isinstance(n, ast.Assign) and len(n.targets) == 1
+                and isinstance(n.targets[0], ast.Name) and n.targets[0].id == "timeout"]
+    first = tmo_assigns([n for n in f.body if not isinstance(n, ast.While)])
+    handlers = [h for n in ast.walk(loops[0]) if isinstance(n, ast.Try) for h in n.handlers]
+    need(len(handlers) == 1 and handlers[0].type is not None and ast.unparse(handlers[0].type).endswith("TimeoutError"),
+         "the probe loop does not have exactly one handler, for TimeoutError")
+    retry = tmo_assigns(handlers[0].body)
+    need(len(first) == 1 and len(retry) == 1 and len(tmo_assigns([loops[0]])) == 1,
+         "wait_for_shell does not set `timeout` once before the loop and once in the TimeoutError handler")
+    def ticks(n, what):
+        need(isinstance(n.value, ast.Constant) and isinstance(n.value.value, (int, float)) and not isinstance(n.value.value, bool),
+             f"{what} is not a numeric literal")
+        return round(n.value.value * 1024)
+    out.append("(* from tbot/machine/linux/util.py: wait_for_shell, shell_sanity_check; timeouts in 1/1024 s *)")
+    out.append(f"Definition GEN_PROBE_FIRST_TMO : Z := {ticks(first[0], 'the first probe timeout')}%Z.")
+    out.append(f"Definition GEN_PROBE_RETRY_TMO : Z := {ticks(retry[0], 'the retry timeout')}%Z.")
     out.append(f"Definition GEN_PROBE : list N := {nlist(probe.encode())}.")
     out.append(f"Definition GEN_PROBE_ANSWER : list N := {nlist(panswer.encode())}.")
     out.append(f"Definition GEN_SANITY : list N := {nlist(line.encode())}.")
